@@ -2,11 +2,18 @@
 Run channels in a `tokio` runtime.
 */
 
+#[cfg(not(emit_rs_emit_verif))]
 use std::{
     future::Future,
     io, thread,
     time::{Duration, Instant},
 };
+
+#[cfg(emit_rs_emit_verif)]
+use std::{future::Future, io, time::Duration};
+
+#[cfg(emit_rs_emit_verif)]
+use crate::verif::{thread, tokio_shim as tokio, Instant};
 
 use crate::{sync, BatchError, Channel, Receiver, Sender};
 
